@@ -528,6 +528,18 @@ func readonlyNonCanonical(r *Rng) {
 			recs = append(recs, o)
 		}
 	}
+	// option values written the way a program may write them (no trailing dot, upper-case hex, ...)
+	for _, opts := range [][]dns.EDNS0{
+		{&dns.EDNS0_REPORTING{Code: dns.EDNS0REPORTING, AgentDomain: "agent.example.org"}},
+		{&dns.EDNS0_REPORTING{Code: dns.EDNS0REPORTING, AgentDomain: "Agent.Example.ORG."}},
+		{&dns.EDNS0_NSID{Code: dns.EDNS0NSID, Nsid: "BEEF"}, &dns.EDNS0_COOKIE{Code: dns.EDNS0COOKIE, Cookie: "AABBCCDDEEFF0011"}},
+		{&dns.EDNS0_ESU{Code: dns.EDNS0ESU, Uri: "SIP:+1@Example.com"}, &dns.EDNS0_EDE{InfoCode: 1, ExtraText: "Mixed Case"}},
+		{&dns.EDNS0_ZONEVERSION{Code: dns.EDNS0ZONEVERSION, LabelCount: 1, Type: 0, Version: "AABBCCDD"}},
+		{&dns.EDNS0_PADDING{Padding: append(make([]byte, 0, 16), 1, 2, 3)}, &dns.EDNS0_LOCAL{Code: 65001, Data: append(make([]byte, 0, 16), 9)}},
+		{&dns.EDNS0_DAU{Code: dns.EDNS0DAU, AlgCode: append(make([]uint8, 0, 8), 15, 8, 13)}, &dns.EDNS0_N3U{Code: dns.EDNS0N3U, AlgCode: []uint8{1}}},
+	} {
+		recs = append(recs, &dns.OPT{Hdr: dns.RR_Header{Name: ".", Rrtype: dns.TypeOPT, Class: 1232}, Option: opts})
+	}
 	mkParams := func() []dns.SVCBKeyValue {
 		return []dns.SVCBKeyValue{
 			&dns.SVCBPort{Port: 8443}, &dns.SVCBAlpn{Alpn: append(make([]string, 0, 4), "h2", "h3")},
